@@ -212,12 +212,13 @@ Proof.
 Qed.
 End Physics.
 
-(** the hypotheses of [source_is_minus_liouville_feq] are jointly satisfiable (constant
-    profiles T = m^2 = 1, v = 3/5, a boson at p = 0 in [env_example]) *)
+(** the hypotheses of [source_is_minus_liouville_feq] are jointly satisfiable by a background
+    that VARIES (v(chi) = 3/5 + chi at chi = 0, so v' = 1 and the conclusion is not 0 = 0;
+    T = m^2 = 1, a boson at p = 0 in [env_example]) *)
 Example physics_hypotheses_satisfiable :
   let e := env_example in
-  let T := fun _ : R => 1 in let v := fun _ : R => 3 / 5 in let m2 := fun _ : R => 1 in
-  is_derive T 0 0 /\ is_derive v 0 0 /\ is_derive m2 0 0 /\
+  let T := fun _ : R => 1 in let v := fun c : R => 3 / 5 + c in let m2 := fun _ : R => 1 in
+  is_derive T 0 0 /\ is_derive v 0 1 /\ is_derive m2 0 0 /\
   T 0 = Tprof e 1 /\ v 0 = vprof e 1 /\ m2 0 = msqprof e 0 1 /\
   T 0 <> 0 /\ 0 < 1 - v 0 ^ 2 /\ 0 < m2 0 + pzv e 0 ^ 2 + ppv e 0 ^ 2 /\
   stat e 0 * stat e 0 = 1 /\
@@ -226,9 +227,9 @@ Example physics_hypotheses_satisfiable :
   dpzdrz e 0 <> 0 /\ 0 < 1 - vwall e ^ 2.
 Proof.
   cbv zeta.
-  assert (X : xarg env_example 0 (fun _ => 1) (fun _ => 3 / 5) (fun _ => 1) 0 (pzv env_example 0) = 5 / 4).
+  assert (X : xarg env_example 0 (fun _ => 1) (fun c => 3 / 5 + c) (fun _ => 1) 0 (pzv env_example 0) = 5 / 4).
   { unfold xarg, Epl, env_example; cbn [ppv pzv].
-    replace (1 - (3 / 5) ^ 2) with ((4 / 5) * (4 / 5)) by field.
+    replace (1 - (3 / 5 + 0) ^ 2) with ((4 / 5) * (4 / 5)) by field.
     rewrite sqrt_square by lra.
     replace (1 + 0 ^ 2 + 0 ^ 2) with (1 * 1) by ring. rewrite sqrt_square by lra. field. }
   rewrite X.
@@ -236,6 +237,31 @@ Proof.
   do 3 (split; [auto_derive; [exact I|ring]|]).
   repeat split; try lra.
   pose proof (exp_ineq1 (5 / 4)). lra.
+Qed.
+(** ... and for this witness the source really is nonzero: -(K1 dF/dchi) with dF/dchi <> 0 is
+    what the theorem equates it to; here directly from the generated definition *)
+Example physics_witness_source_nonzero :
+  source_k env_example (fun _ _ => 0) (fun _ => 0) (fun _ => 1) 0 0 0 0 <> 0.
+Proof.
+  unfold source_k, b_source', b_source, b_dfEq, b__dfeq, b_momentumWall, b_momentumPlasma,
+    b_energyPlasma, b_uwBaruPl, b_gammaPlasma, b_gammaWall, b_energy, b_temperature, b_v, b_vFull,
+    b_msq, b_msqFull, b_statistics, b_pz', b_pz, b_pp', b_pp, b_dchidxi, b_dxidchi, b_velocityWall,
+    env_example; cbn [Tprof vprof msqprof pzv ppv stat maxexp dxidchi vwall].
+  replace (1 + 0 ^ 2 + 0 ^ 2) with (1 * 1) by ring. rewrite sqrt_square by lra.
+  replace (1 - (3 / 5) ^ 2) with ((4 / 5) * (4 / 5)) by field. rewrite sqrt_square by lra.
+  set (s3 := sqrt (1 - (1 / 2) ^ 2)).
+  assert (S3 : 0 < s3) by (apply sqrt_lt_R0; lra).
+  set (x := 1 / (4 / 5) * (1 - 3 / 5 * 0) / 1).
+  assert (Hx : x = 5 / 4) by (unfold x; field).
+  destruct (Rlt_dec 1000 x) as [H|H]; [lra|].
+  assert (D : 0 < exp x - 2 * 1 + exp (- x)).
+  { assert (H0 : x <> 0) by lra. pose proof (exp_ineq1 x H0). pose proof (exp_pos (- x)). lra. }
+  apply Rmult_integral_contrapositive_currified.
+  - match goal with |- ?A <> 0 =>
+      replace A with (- / (exp x - 2 * 1 + exp (- x))) by (field; lra) end.
+    assert (0 < / (exp x - 2 * 1 + exp (- x))) by (apply Rinv_0_lt_compat; lra). lra.
+  - match goal with |- ?B <> 0 => replace B with (75 / (128 * s3)) by (field; lra) end.
+    apply Rgt_not_eq, Rdiv_lt_0_compat; lra.
 Qed.
 
 (** the prefactors do not look at the collision array *)
@@ -362,11 +388,13 @@ Lemma K2_explicit_lem e dM a al be b :
 Proof. unfold K2, b_dchidxi, b_dxidchi, b_drzdpz, b_dpzdrz, b_gammaWall, b_velocityWall. unfold Rdiv. ring. Qed.
 
 (** ** (6) AST facts: solveBoltzmannEquations is build -> np.linalg.solve(operator, source) in
-    double precision -> C-order reshape to the axes buildLinearEquations flattened; in getDeltas,
+    double precision ([no_downcast]: no astype / dtype / float32 / view construct in build, solve,
+    _feq, _dfeq; float64 inputs are checked at run time) -> C-order reshape to the axes
+    buildLinearEquations flattened; in getDeltas,
     checkLinearization and estimateTruncationError every use of deltaF goes through a Polynomial
     in the solver's bases converted to one fixed basis, or multiplies an array returned by
     buildLinearEquations (which carries the position intertwiner), and each method converts *)
-Lemma solve_facts_lem : solve_ok solve_steps solve_shape build_flat = true.
+Lemma solve_facts_lem : solve_ok solve_steps solve_shape build_flat && no_downcast = true.
 Proof. vm_compute. reflexivity. Qed.
 Lemma deltaF_uses_lem :
   duses_ok deltaF_uses = true /\
@@ -444,6 +472,41 @@ Proof.
   { intros r c. unfold Acard. rewrite operator_is_opform. unfold opform, K1, K2, K3, z2, dl4, e.
     autorewrite with with_coll_db. unfold env_ones; cbn [cmult Tprof]. ring. }
   split; [exact E|]. intros r c Hr Hc. rewrite dl4_sum by assumption. apply E.
+Qed.
+
+(** ... and by an operator with a NON-TRIVIAL Liouville part: two position points, cardinal
+    derivative matrix [[0,1],[0,0]], unit collision term: A = I + k N with k = the generated
+    d/dchi coefficient K1 (nonzero), left inverse I - k N *)
+Example operator_with_liouville_left_inverse :
+  let e := with_coll (fun a be ga b j k => kron a b * (kron be j * kron ga k)) env_example in
+  let z2 := fun _ _ : nat => 0 in
+  let Dc := fun r c : nat => kron r 0 * kron c 1 in
+  let A := Acard e z2 Dc z2 in
+  let Binv := fun r c : idx => dl4 r c - (A r c - dl4 r c) in
+  A (0, 0, 0, 0)%nat (0, 1, 0, 0)%nat <> 0 /\
+  (forall r c, In r (U4 1 2 1) -> In c (U4 1 2 1) ->
+     lsum (U4 1 2 1) (fun t => Binv r t * A t c) = dl4 r c).
+Proof.
+  intros e z2 Dc A Binv.
+  assert (E : forall r c, A r c = dl4 r c +
+     K1 e (p1 r) (p2 r) (p3 r) (p4 r) (p1 c) * Dc (p2 r) (p2 c) * kron (p3 r) (p3 c) * kron (p4 r) (p4 c)).
+  { intros r c. unfold A, Acard. rewrite operator_is_opform. unfold opform, K2, K3, z2, dl4, e.
+    autorewrite with with_coll_db. unfold env_example; cbn [cmult Tprof]. ring. }
+  split.
+  - rewrite E. unfold dl4, Dc, p1, p2, p3, p4, kron; cbn [fst snd Nat.eqb].
+    unfold K1, e, b_dchidxi, b_dxidchi, b_momentumWall, b_gammaWall, b_velocityWall, b_energy, b_msq,
+      b_msqFull, b_pz', b_pz, b_pp', b_pp, kron; cbn [Nat.eqb].
+    autorewrite with with_coll_db. unfold env_example; cbn [dxidchi vwall pzv ppv msqprof].
+    replace (1 + 0 ^ 2 + 0 ^ 2) with (1 * 1) by ring. rewrite sqrt_square by lra.
+    assert (S3 : 0 < sqrt (1 - (1 / 2) ^ 2)) by (apply sqrt_lt_R0; lra).
+    match goal with |- ?B <> 0 =>
+      replace B with (- / (2 * sqrt (1 - (1 / 2) ^ 2))) by (field; lra) end.
+    assert (0 < / (2 * sqrt (1 - (1 / 2) ^ 2))) by (apply Rinv_0_lt_compat; lra). lra.
+  - intros r c Hr Hc. unfold Binv.
+    cbn in Hr, Hc.
+    destruct Hr as [<-|[<-|[]]]; destruct Hc as [<-|[<-|[]]];
+      cbn [U4 flat_map seq map app lsum]; rewrite !E;
+      unfold dl4, Dc, p1, p2, p3, p4, kron; cbn [fst snd Nat.eqb]; ring.
 Qed.
 
 (** ** (7) a constant profile has zero derivative.  Spectral mode: C16's model of
@@ -575,7 +638,7 @@ Proof. intros. split; [apply K1_explicit_lem|apply K2_explicit_lem]. Qed.
 Print Assumptions liouville_coefficients_explicit.
 
 Theorem solve_is_dense_double_solve_in_C_order :
-  solve_ok solve_steps solve_shape build_flat = true.
+  solve_ok solve_steps solve_shape build_flat && no_downcast = true.
 Proof. exact solve_facts_lem. Qed.
 Print Assumptions solve_is_dense_double_solve_in_C_order.
 
